@@ -212,8 +212,10 @@ def parse_lines(text):
     return obs, orc
 
 
-def run_both(stream, cases, scratch, xv, env=None, timeout=900, model=True, impl=True, shards=None, model_stream=None):
-    """cases: list of (id, text-after-id).  Returns (impl_obs, impl_orc, model_obs, errors)."""
+def run_both(stream, cases, scratch, xv, env=None, timeout=900, model=True, impl=True, shards=None, model_stream=None, prep=None):
+    """cases: list of (id, text-after-id).  Returns (impl_obs, impl_orc, model_obs, errors).
+    prep: name of a harness stream that prints `aux <id> <text>` lines (oracle tables for external codecs, or
+    bytes built by the implementation's own serializer); they are appended to the model's case lines after ` ## `."""
     shards = shards or NPROC
     os.makedirs(scratch, exist_ok=True)
     files = []
@@ -224,6 +226,23 @@ def run_both(stream, cases, scratch, xv, env=None, timeout=900, model=True, impl
             for cid, text in cases[k::n]:
                 f.write("%s %s\n" % (cid, text))
         files.append(p)
+    mfiles = {p: p for p in files}
+    if prep and model:
+        with concurrent.futures.ThreadPoolExecutor(max_workers=NPROC) as ex:
+            futs = {p: ex.submit(_run_exec, [xv, prep, p], env, timeout) for p in files}
+        for p in files:
+            rc, out, err = futs[p].result()
+            aux = {}
+            for line in out.split("\n"):
+                if line.startswith("aux "):
+                    _, cid, rest = (line.split(" ", 2) + [""])[:3]
+                    aux[cid] = rest
+            mp = p + ".model"
+            with open(p) as f, open(mp, "w") as g:
+                for line in f:
+                    cid = line.split(" ", 1)[0]
+                    g.write(line.rstrip("\n") + " ## " + aux.get(cid, "") + "\n")
+            mfiles[p] = mp
     jobs = []
     drv = os.path.join(ROOT, "ocaml", "driver")
     with concurrent.futures.ThreadPoolExecutor(max_workers=NPROC) as ex:
@@ -231,7 +250,7 @@ def run_both(stream, cases, scratch, xv, env=None, timeout=900, model=True, impl
             if impl:
                 jobs.append(("impl", p, ex.submit(_run_exec, [xv, stream, p], env, timeout)))
             if model:
-                jobs.append(("model", p, ex.submit(_run_exec, ["bash", "-c", "ulimit -s unlimited 2>/dev/null; exec \"$0\" \"$1\" \"$2\"", drv, model_stream or stream, p], None, timeout)))
+                jobs.append(("model", p, ex.submit(_run_exec, ["bash", "-c", "ulimit -s unlimited 2>/dev/null; exec \"$0\" \"$1\" \"$2\"", drv, model_stream or stream, mfiles[p]], None, timeout)))
         iobs, iorc, mobs, errors = {}, {}, {}, []
         for kind, p, fut in jobs:
             rc, out, err = fut.result()
